@@ -549,11 +549,11 @@ def constraint_lists(draw, stations, max_constraints=4, limits=(20.0, 50.0, 100.
 
 
 @st.composite
-def schedule_entries(draw, stations, max_len=4, empty_ok=True, vacant_ok=True):
+def schedule_entries(draw, stations, max_len=4, empty_ok=True, vacant_ok=True, full=False):
     if empty_ok and draw(st.integers(0, 7)) == 0:
         return {"rows": {}}
     ids = [s["id"] for s in stations]
-    subset = draw(st.lists(st.sampled_from(ids), min_size=1, max_size=len(ids), unique=True))
+    subset = ids if full else draw(st.lists(st.sampled_from(ids), min_size=1, max_size=len(ids), unique=True))
     L = draw(st.integers(1, max_len))
     rows = {}
     all_zero = draw(st.integers(0, 7)) == 0  # "stop charging": a non-empty schedule of zeros
